@@ -394,11 +394,32 @@ func sameType(ctx astmatcher.Ctx, lit ast.Node, fun ast.Expr) bool {
 	}
 	lt, ft := ctx.TypeOf(l), ctx.TypeOf(fun)
 	if unknownType(lt) || unknownType(ft) {
-		// the optimise stage may see a partial package (go:generate mode reloads
-		// the rewritten files only): nothing to compare against
-		return true
+		// the optimise stage may see a partial package (the rewritten files only):
+		// nothing to compare against. The thunks the rewriter generated itself have
+		// the type of their callee by construction; a literal of the user is kept
+		return generatedCallee(ctx, fun)
 	}
 	return types.Identical(lt, ft)
+}
+
+// generatedCallee: a function of the seq runtime, or a method of one of the
+// iterator temporaries of rewritten range loops.
+func generatedCallee(ctx astmatcher.Ctx, fun ast.Expr) bool {
+	switch fun := fun.(type) {
+	case *ast.ParenExpr:
+		return generatedCallee(ctx, fun.X)
+	case *ast.IndexExpr:
+		return generatedCallee(ctx, fun.X)
+	case *ast.IndexListExpr:
+		return generatedCallee(ctx, fun.X)
+	case *ast.SelectorExpr:
+		if x, ok := fun.X.(*ast.Ident); ok && strings.HasPrefix(x.Name, cstIterVar) {
+			return true
+		}
+		fn, ok := ctx.TypeInfo().Uses[fun.Sel].(*types.Func)
+		return ok && fn.Pkg() != nil && fn.Pkg().Path() == pkgSeqPath
+	}
+	return false
 }
 
 // unknownType: no (complete) type was recorded for a function-typed expression.
